@@ -63,7 +63,7 @@ class Rng(random.Random):
     def big_int(self, bits=256, signed=True):
         kind = self.randrange(8)
         if kind == 0:
-            v = self.choice([0, 1, 2, 127, 128, 255, 256, 2**63 - 1, 2**63, 2**64])
+            v = self.choice([0, 1, 2, 63, 64, 65, 127, 128, 255, 256, 8191, 8192, 8193, 2**20 - 1, 2**20, 2**31, 2**62, 2**63 - 1, 2**63, 2**64])
         elif kind == 1:
             k = self.randrange(1, max(2, bits // 8))
             v = self.choice([2 ** (8 * k) - 1, 2 ** (8 * k), 2 ** (8 * k - 1), 2 ** (7 * k), 2 ** (7 * k) - 1])
